@@ -33,7 +33,8 @@ META = {
     "title": "Operations through a smart server match local operations",
     "technique": ("one deterministic Coq specification machine (branch tip/revno, repository revision set, tags, config, "
                   "lock) over Lib/Dag; the same seeded operation sequence is run on the local path, through bzr:// to an "
-                  "in-process smart server with VFS, and with BRZ_NO_SMART_VFS; every returned value and the on-disk state "
+                  "in-process smart server with VFS, with BRZ_NO_SMART_VFS, and (a third of the cases) with the modern verbs "
+                  "hidden so that the client takes its VFS fallbacks; every returned value and the on-disk state "
                   "after every operation are compared with the specification and with each other"),
     "level_text": ("refinement by validation (P-spec): Coq proves the specification deterministic, that two implementations "
                    "refining it on an operation sequence produce equal observations (and that a forward simulation gives "
@@ -52,7 +53,8 @@ META = {
                     "config values and tag names come from a pool that round-trips on a local branch (C49/C24 cover the codecs)",
                     "operations that need VFS (RemoteBranch.pull into the remote branch, commit builder on a remote repository) "
                     "fail cleanly under BRZ_NO_SMART_VFS: modelled as mode-dependent refusals, excluded from the equality claim",
-                    "one client at a time (the locker is a second branch object in the same process)"],
+                    "one client at a time (the locker is a second branch object in the same process)",
+                    "old-server mode = the current server with 18 verbs removed from its registry (the insert_stream verbs stay)"],
     "rule": "one case = one op sequence x 3 modes; non-trivial = at least 3 state-changing ops succeeded; distinct = distinct (input, observation)",
 }
 SHARD = 4
@@ -415,6 +417,10 @@ class _Run:
             return bool(t.get_file_text("f") == self._want_text(r))
 
     def op_genhist(self, r):
+        if self.mode == "oldsrv":
+            # on a connection that has already learnt "server older than 1.6" the client skips its own
+            # left-hand walk and an absent revision raises the other class: always ask on a new connection
+            self.close_all()
         self.open().generate_revision_history(rid(r))
         return None
 
